@@ -229,6 +229,29 @@ func (sw *storageWorld) exec(st *Step) *Violation {
 		m.delta[id] = verDeleted
 	case "s.retrieve":
 		want := m.view(id)
+		if st.Fault != nil && st.Fault.ReadAt > 0 {
+			// the ledger fails the read (if the read reaches the ledger at all): the call must report an error and
+			// the view must stay what it was - nothing is learnt from a failed read
+			fired0 := sw.ledger.FaultsFired["ledger.read-error"]
+			sw.ledger.SetPlan(&FaultPlan{FailReadAt: map[int]bool{st.Fault.ReadAt: true}})
+			var err error
+			if st.Keep {
+				_, _, err = sw.st.Retrieve(id.SlabID())
+			} else {
+				_, _, err = sw.st.RetrieveIgnoringDeltas(id.SlabID(), st.N%2 == 0)
+			}
+			sw.ledger.SetPlan(nil)
+			if sw.ledger.FaultsFired["ledger.read-error"] > fired0 {
+				sw.stats.Inc("fault.ledger.read-error")
+				if err == nil {
+					return sw.viol("ov.error", "a read of %s whose ledger access failed returned no error", id)
+				}
+				if !wrapsInjected(err) {
+					return sw.viol("ov.error", "a read of %s whose ledger access failed returned %v, want an external error wrapping the injected one", id, err)
+				}
+			}
+			// fall through to an ordinary read: it must see the unchanged view
+		}
 		slab, found, err := sw.st.Retrieve(id.SlabID())
 		if err != nil {
 			return sw.viol("ov.error", "Retrieve(%s) failed: %v", id, err)
@@ -412,6 +435,9 @@ func genStorageStep(r *Rng, nids int) Step {
 	ops := []string{"s.store", "s.remove", "s.retrieve", "s.bypass", "s.commit", "s.dropdeltas", "s.dropcache", "s.preload", "s.recreate", "s.sweep"}
 	w := []int{8, 5, 8, 4, 5, 1, 2, 2, 1, 1}
 	st := Step{Op: ops[r.Pick(w)], C: r.Intn(nids), N: r.Intn(64), Keep: r.Chance(0.5), Workers: r.Intn(4)}
+	if st.Op == "s.retrieve" && r.Chance(0.2) {
+		st.Fault = &FaultSpec{ReadAt: 1}
+	}
 	if st.Op == "s.commit" {
 		if r.Chance(0.35) {
 			st.Flavour = "nfc"
